@@ -986,7 +986,7 @@ func runSess(env *Env) error {
 		w := genWorld(env, withCD)
 		// (costs about 30 s of model time: only in the runs of the properties about framing and listings)
 		wantBig := map[string]bool{"C03": true, "C06": true, "T": true}[os.Getenv("VERIF_PROP")]
-		if i == 7 && wantBig { // a directory with more entries than any plausible listing limit
+		if i == 8 && wantBig { // a directory with more entries than any plausible listing limit
 			big := &WNode{Name: "big", Dir: true, MTime: 1500000900}
 			for k := 0; k < 4100; k++ {
 				big.Kids = append(big.Kids, &WNode{Name: fmt.Sprintf("e%04d", k), MTime: 1400000000 + int64(k%7), Content: Content{{Kind: 'g', N: k % 3, A: k}}})
@@ -996,7 +996,7 @@ func runSess(env *Env) error {
 			}
 			env.Count("variant", "big-directory")
 		}
-		bigDir := i == 7 && wantBig
+		bigDir := i == 8 && wantBig // (a case whose stream is sent request by request)
 		emptyRoot := i%16 == 9 // an empty served root, uploads allowed: the only state in which removing "/" could succeed
 		if emptyRoot {
 			w.Child("R").Kids = nil
